@@ -193,7 +193,10 @@ def translate(repo):
         source() = the wrapped error's source for Io, None otherwise; fix_position repositions only an unpositioned error (line == 0)"""
         sq = squeeze(re.sub(r'^\s*//.*$', '', err, flags=re.M))
         for name, cat in (('is_io', 'Io'), ('is_syntax', 'Syntax'), ('is_data', 'Data'), ('is_eof', 'Eof')):
-            if sq.count('pub fn %s(&self) -> bool { self.classify() == Category::%s }' % (name, cat)) != 1:
+            forms = ('pub fn %s(&self) -> bool { self.classify() == Category::%s }' % (name, cat),
+                     'pub fn %s(&self) -> bool { matches!(self.classify(), Category::%s) }' % (name, cat),
+                     'pub fn %s(&self) -> bool { Category::%s == self.classify() }' % (name, cat))
+            if sum(sq.count(f) for f in forms) != 1:
                 raise Broken('%s is no longer `self.classify() == Category::%s`' % (name, cat))
         need = ['pub fn io_error_kind(&self) -> Option<ErrorKind> { if let ErrorCode::Io(io_error) = &self.err.code { Some(io_error.kind()) } else { None } }',
                 'fn from(j: Error) -> Self { if let ErrorCode::Io(err) = j.err.code { err } else { match j.classify() { Category::Io => unreachable!(), '
